@@ -1,4 +1,5 @@
 import PcbV.Lemmas.Renum
+import PcbV.Lemmas.MiniRenum
 import PcbV.Props.C13
 /-
   C14 — RENUM renumbers lines and every reference to them consistently.
@@ -298,18 +299,111 @@ theorem renum_keeps_Inv (s : PState) (rs : List Rec) (new start step : Nat) (res
 theorem renumCmd_step0 (rs : List Rec) (new old : Option Nat) : renumCmd rs new old (some 0) = .error E.ifc := by
   simp [renumCmd]
 
-/-- Stretch, NOT proved (the MiniBasic model of C19 does not exist yet; checked on the real
-    interpreter by the oracle of props/c14.py): for an interpreter `run` mapping a program to its
-    output trace, each output tagged `true` when it is a printed line number (ERL, error messages),
-    an accepted RENUM without "Undefined line" reports leaves the trace unchanged up to the printed
-    line numbers.  A proof would be a simulation using only `renum_order_bijection`,
-    `renum_jump_target` and `renum_refs_partial`. -/
+/-- Earlier statement of the behaviour clause over an abstract interpreter `run` on token-level
+    programs (kept as a definition; nothing is proved about it).  The behaviour clause is now PROVED on the
+    MiniBasic control-flow model of C19: `renum_semantics_map`, `renum_semantics`,
+    `renum_semantics_all_targets_exist` below. -/
 def RenumSemantics (run : List Rec → List (Bool × Nat)) : Prop :=
   ∀ rs new start step res, Sorted rs → 0 < new → 0 < step → renum rs new start step = .ok res →
     res.reports = [] →
     run res.prog = (run rs).map (fun o => if o.1 then (true, fmap res.map o.2) else o)
 
+/-! ### behaviour: the renumbered program runs exactly like the original (MiniBasic, C19's Mech layer) -/
+
+open PcbV.MiniBasic in
+/-- **simulation, general form.**  Renumber a MiniBasic program (all line numbers and all jump targets of
+    GOTO / GOSUB / IF…THEN n / ELSE n / ON…GOTO / ON…GOSUB) through ANY map `f` that never identifies an
+    existing line with a different jump target (`Compat`: injective on existing lines, and a target naming no
+    line does not land on a line's new number).  Then the interpreter mechanism — program positions, FOR /
+    WHILE / GOSUB stacks, NEXT / WEND / ELSE scans — goes through the same states step for step, so the printed
+    values and the way the program stops (END, error number, out of fuel) are identical, for every fuel,
+    for the repaired and the unrepaired FOR code alike.  The proof uses nothing about `f` but `Compat`:
+    Mech positions are statement indices, line numbers matter only in `lineIndex`. -/
+theorem renum_semantics_map (f : Nat → Nat) (p : List Line)
+    (hc : Compat f (progLines p) (progTargets p)) (fixed : Bool) (fuel : Nat) :
+    MiniBasic.trace fixed (renumProg f p) fuel = MiniBasic.trace fixed p fuel :=
+  trace_renum f p hc fixed fuel
+
+open PcbV.MiniBasic in
+/-- jump-target preservation at the MiniBasic level: position lookup commutes with renumbering -/
+theorem renum_lineIndex (f : Nat → Nat) (p : List Line) (n : Nat)
+    (hinj : ∀ l ∈ progLines p, f l = f n → l = n) :
+    lineIndex (flatten (renumProg f p)) (f n) = lineIndex (flatten p) n := by
+  rw [flatten_renum]
+  exact lineIndexFrom_renum f n _ 0 (fun l hl => hinj l (codeLines_flatten_subset p hl))
+
+open PcbV.MiniBasic in
+/-- what `Compat` asks of a map, in the terms of `renum_order_bijection` / `renum_ref_value` -/
+theorem compat_of_injective (f : Nat → Nat) (lines targets : List Nat)
+    (hinj : ∀ a ∈ lines, ∀ b ∈ lines, f a = f b → a = b)
+    (hmiss : ∀ n ∈ targets, n ∉ lines → ∀ l ∈ lines, f l ≠ f n) : Compat f lines targets := by
+  intro l hl n hn he
+  by_cases hmem : n ∈ lines
+  · exact hinj l hl n hmem he
+  · exact absurd he (hmiss n hn hmem l hl)
+
+open PcbV.MiniBasic in
+/-- **renum_semantics.**  For an accepted RENUM (`Renum.renum … = .ok res`) of a program whose lines are those of
+    the MiniBasic program `p`: if no jump target that names no line coincides with one of the NEW line numbers
+    (such targets are exactly the ones RENUM reports as "Undefined line", `renum_reports_iff`; they are kept
+    unchanged, and would start to name a line), then running the renumbered program gives the same printed
+    output and the same termination (END / error number / fuel) as running the original.  MiniBasic prints
+    values, not line numbers, so the traces are equal, not merely equal up to a mapping. -/
+theorem renum_semantics (p : List Line) (rs : List Rec) (new start step : Nat) (res : Result)
+    (hs : Sorted rs) (hstep : 0 < step) (h : renum rs new start step = .ok res)
+    (hlines : progLines p = lineNos rs)
+    (hmiss : ∀ n ∈ progTargets p, n ∉ lineNos rs → n ∉ lineNos res.prog) (fixed : Bool) (fuel : Nat) :
+    MiniBasic.trace fixed (renumProg (fmap res.map) p) fuel = MiniBasic.trace fixed p fuel := by
+  apply renum_semantics_map
+  rw [hlines]
+  apply compat_of_injective
+  · intro a ha b hb he
+    exact renum_injective hs hstep h ha hb he
+  · intro n hn hnot l hl he
+    have hid : fmap res.map n = n :=
+      (renum_ref_value rs new start step res hs h).2 n (fun hm => hnot (by
+        obtain ⟨r, hr, rfl⟩ := List.mem_map.mp hm
+        exact List.mem_map.mpr ⟨r, (List.mem_filter.mp hr).1, rfl⟩))
+    obtain ⟨_, _, hp, _⟩ := renum_ok h
+    apply hmiss n hn hnot
+    rw [hp]
+    obtain ⟨r, hr, rfl⟩ := List.mem_map.mp hl
+    exact List.mem_map.mpr ⟨_, List.mem_map.mpr ⟨r, hr, rfl⟩, by simp [he, hid]⟩
+
+open PcbV.MiniBasic in
+/-- the case the property statement is about: every reference names an existing line (RENUM prints no
+    "Undefined line") — no side condition left -/
+theorem renum_semantics_all_targets_exist (p : List Line) (rs : List Rec) (new start step : Nat) (res : Result)
+    (hs : Sorted rs) (hstep : 0 < step) (h : renum rs new start step = .ok res)
+    (hlines : progLines p = lineNos rs) (hall : ∀ n ∈ progTargets p, n ∈ lineNos rs) (fixed : Bool) (fuel : Nat) :
+    MiniBasic.trace fixed (renumProg (fmap res.map) p) fuel = MiniBasic.trace fixed p fuel :=
+  renum_semantics p rs new start step res hs hstep h hlines (fun n hn hnot => absurd (hall n hn) hnot) fixed fuel
+
+open PcbV.MiniBasic in
+/-- why the side condition of `renum_semantics` is needed: `10 GOTO 100 / 20 PRINT 1`, RENUM 100 — the
+    reference to the missing line 100 is kept (and reported), and line 10 becomes line 100: the original
+    stops with Undefined line number, the renumbered program loops -/
+theorem renum_semantics_collision_counterexample :
+    let p : List Line := [⟨10, [.goto 100]⟩, ⟨20, [.print (.lit 1)]⟩]
+    ∃ res, renum [(10, []), (20, [])] 100 0 10 = .ok res ∧
+      MiniBasic.trace true p 5 = ([], .err E.undefined_line_number) ∧
+      MiniBasic.trace true (renumProg (fmap res.map) p) 5 = ([], .fuel) := by
+  refine ⟨_, rfl, ?_, ?_⟩ <;> decide +kernel
+
 /-! ### non-vacuity and the recorded deviations -/
+
+open PcbV.MiniBasic in
+/-- `renum_semantics` is not vacuous: `10 GOSUB 30:ON 2 GOTO 20,40 / 20 END / 30 PRINT 7:RETURN / 40 IF 1 THEN 20`
+    RENUM 100,20,5 is accepted, all targets exist, and the program prints 7 and ends — before and after -/
+example :
+    let p : List Line := [⟨10, [.gosub 30, .on_ (.lit 2) false [20, 40]]⟩, ⟨20, [.end_]⟩,
+      ⟨30, [.print (.lit 7), .ret]⟩, ⟨40, [.ifThen (.lit 1) (some 20)]⟩]
+    ∃ res, renum [(10, []), (20, []), (30, []), (40, [])] 100 20 5 = .ok res ∧
+      progLines (renumProg (fmap res.map) p) = [10, 100, 105, 110] ∧
+      MiniBasic.trace true p 20 = ([7], .ended) ∧
+      MiniBasic.trace true (renumProg (fmap res.map) p) 20 = ([7], .ended) := by
+  refine ⟨_, rfl, ?_, ?_, ?_⟩ <;> decide +kernel
+
 
 /-- `5 GOTO 20 / 10 ON ERROR GOTO 0 / 20 GOTO 5:GOTO 77`, RENUM 100,10,5 -/
 example : renum [(5, [137, 32, 14, 20, 0]), (10, [149, 32, 167, 32, 137, 32, 14, 0, 0]),
